@@ -191,10 +191,18 @@ Proof.
     rewrite dv_0, Unsigned.of_to. reflexivity.
 Qed.
 
-Lemma by_value_int r b z : meta r b = Some (TInt z) -> (py_float_or_0 (feat r b) == inject_Z z)%Q.
+Lemma by_value_int r b z : meta r b = Some (TInt z) -> (num_of (meta r b) == inject_Z z)%Q.
 Proof.
-  intros H. unfold py_float_or_0, feat. rewrite H. cbn [py_str]. rewrite parse_decimal_str_of_Z. reflexivity.
+  intros H. rewrite H. unfold num_of, py_float_or_0. cbn [py_str]. rewrite parse_decimal_str_of_Z. reflexivity.
 Qed.
+
+(* a float tag contributes its exact value; a string tag the value of its decimal literal (0 when it is none) *)
+Lemma by_value_float r b q s : meta r b = Some (TFlt q s) -> num_of (meta r b) = q.
+Proof. intros H. rewrite H. reflexivity. Qed.
+
+Lemma by_value_str r b s : meta r b = Some (TStr s) ->
+  num_of (meta r b) = match parse_decimal s with Some q => q | None => 0%Q end.
+Proof. intros H. rewrite H. reflexivity. Qed.
 
 (* ------------------------------------------------------------------ soundness of the executable specification *)
 Lemma existsb_ck k l : existsb (ck_eqb k) l = true <-> In k l.
